@@ -178,8 +178,11 @@ class Interp:
         if w is None:
             w = self.get(op.inputs[1])  # weights computed at run time (the operator then stays on the CPU)
         oc, kh, kw, ic = w.shape
+        groups = 1
         if x.shape[3] != ic:
-            raise Unsupported("grouped convolution")
+            if ic == 0 or x.shape[3] % ic or oc % (x.shape[3] // ic):
+                raise Unsupported("filter depth does not divide the IFM depth")
+            groups = x.shape[3] // ic  # grouped convolution: output channel block g sees input channel block g only
         bias, bdt = self._bias(op, oc)
         n, h, wd, _ = x.shape
         oh, ow = self.sg.tensors[op.outputs[0]].shape[1:3]
@@ -187,14 +190,19 @@ class Interp:
         pl = pad_amounts(wd, (kw - 1) * dw_ + 1, sw_, padding, ow)
         need_h = (oh - 1) * sh_ + (kh - 1) * dh_ + 1
         need_w = (ow - 1) * sw_ + (kw - 1) * dw_ + 1
-        xp = np.zeros((n, max(need_h, pt + h), max(need_w, pl + wd), ic), dtype=np.int64)
+        xp = np.zeros((n, max(need_h, pt + h), max(need_w, pl + wd), ic * groups), dtype=np.int64)
         xp[:, pt : pt + h, pl : pl + wd, :] = x - zx
         wz = w - np.array(zw if len(zw) == oc else [zw[0]] * oc, dtype=np.int64).reshape(oc, 1, 1, 1)
         acc = np.zeros((n, oh, ow, oc), dtype=np.int64)
         for ky in range(kh):
             for kx in range(kw):
                 patch = xp[:, ky * dh_ : ky * dh_ + (oh - 1) * sh_ + 1 : sh_, kx * dw_ : kx * dw_ + (ow - 1) * sw_ + 1 : sw_, :]
-                acc += np.tensordot(patch, wz[:, ky, kx, :], axes=([3], [1]))
+                if groups == 1:
+                    acc += np.tensordot(patch, wz[:, ky, kx, :], axes=([3], [1]))
+                else:
+                    ocg = oc // groups
+                    for gi in range(groups):
+                        acc[..., gi * ocg : (gi + 1) * ocg] += np.tensordot(patch[..., gi * ic : (gi + 1) * ic], wz[gi * ocg : (gi + 1) * ocg, ky, kx, :], axes=([3], [1]))
         acc += bias.reshape(1, 1, 1, oc)
         return self._requant_conv(acc, mult, bdt, dt, zo, odt, act, so)
 
